@@ -692,6 +692,13 @@ func (env *Env) call(n *ast.CallExpr) *Val {
 		case "allocated":
 			v := env.eval(n.Args[0])
 			return &Val{T: sx("select", e.allocGet(env.st), v.T), Ty: tBool}
+		case "errIs":
+			// errIs(err, target): the relation errors.Is is modelled by (errorsis.go)
+			e.declOnce("fun:errIs", "(declare-fun errIs (Int Int) Bool)")
+			e.declOnce("ax:errIs", "(assert (forall ((a Int) (b Int)) (! (and (=> (= a 0) (not (errIs a b))) (=> (and (not (= a 0)) (= a b)) (errIs a b))) :pattern ((errIs a b)))))")
+			a := env.eval(n.Args[0])
+			b := env.eval(n.Args[1])
+			return &Val{T: sx("errIs", a.T, b.T), Ty: tBool}
 		case "ghost":
 			// ghost(name): current value of an integer ghost variable
 			nm := n.Args[0].(*ast.Ident).Name
@@ -892,6 +899,9 @@ func (e *Engine) specSort(env *Env, kw string) (string, types.Type) {
 		return "(Array Int Int)", types.NewArray(tInt, 0)
 	case "strarr":
 		return "(Array Int String)", types.NewArray(tString, 0)
+	case "bytesarr":
+		// the element array of a [][]byte
+		return "(Array Int Slice)", types.NewArray(types.NewSlice(types.Typ[types.Uint8]), 0)
 	case "intset":
 		return "(Array Int Bool)", types.NewArray(tBool, 0)
 	case "strset":
